@@ -184,4 +184,22 @@ HAND = [
             "/p/entry.ts": E + 'type Tree = { value: string; left: Tree | null; right: Tree | null };\nexport type Child = Exclude<Tree["left"], null>;\nexport type Keys = keyof Tree;\nparse.buildParsers<{ Child: Child; Keys: Keys; Tree: Tree }>();\n',
         },
     },
+    {
+        "id": "h_typeof_ns_barrel_bad",
+        "files": {
+            "/p/entry.ts": E + 'import * as K from "./barrel";\ntype T = typeof K;\nparse.buildParsers<{ T: T }>();\n',
+            "/p/barrel.ts": 'export { r1, r2, f3, c4, ok } from "./consts";\nexport { other as renamed, q5 } from "./more";\n',
+            "/p/consts.ts": 'export const r1 = /a/;\nexport const r2 = { [Symbol.iterator]: 1 };\nexport const f3 = () => 1;\nexport const c4 = class {};\nexport const ok = 1 as const;\n',
+            "/p/more.ts": 'export const other = new Date();\nexport const q5 = { 1.5: "x", ["k" + 1]: 2 };\n',
+        },
+    },
+    {
+        "id": "h_typeof_ns_barrel_ok",
+        "files": {
+            "/p/entry.ts": E + 'import * as K from "./barrel";\ntype T = typeof K;\ntype One = typeof K.a;\nparse.buildParsers<{ T: T; One: One }>();\n',
+            "/p/barrel.ts": 'export { a, b, c } from "./consts";\nexport * from "./more";\nexport * as nested from "./more";\n',
+            "/p/consts.ts": 'export const a = "a" as const;\nexport const b = 2 as const;\nexport const c = { x: 1 } as const;\n',
+            "/p/more.ts": 'export const d = true as const;\nexport const e = ["p", "q"] as const;\n',
+        },
+    },
 ]
